@@ -242,7 +242,10 @@ def o7(tier):
     ob.require(n_own >= 1 and n_we >= 1, 'O7/vacuity', f'own {n_own} wrongepoch {n_we}')
     ob.r.bounds = {'paths': 'all'}
     ob.r.vacuity.append(f'{len(paths)} paths; OwnCommitPending {n_own}, WrongEpoch {n_we}')
-    return ob.done(cases=len(paths))
+    r = ob.done(cases=len(paths))
+    from vlib import scen
+    scen.confirm(r, 'O7/wrong-epoch-any-content-type', 'c07', 'c07_late_proposal_of_a_past_epoch_does_not_roll_back')
+    return r
 
 
 @guard
